@@ -125,7 +125,7 @@ def gen_authority(rng):
             host = '::' + ':'.join('%x' % rng.randint(0, 0xFFFF) for _ in range(rng.randint(1, 6)))
         if rng.random() < 0.2:
             host = '::ffff:' + '.'.join(str(rng.randint(0, 255)) for _ in range(4))
-    port = rng.choice([None, None, rng.randint(0, 65535), rng.choice([80, 443, 8080, 1, 65535])])
+    port = rng.choice([None, None, rng.randint(0, 65535), rng.choice([80, 443, 8080, 1, 65535, 0, 0, 9, 10])])
     default = rng.choice([None, 80, 443])
     if kind == 'ipv6':
         text = '[' + host + ']' + ('' if port is None else ':%d' % port)
@@ -168,7 +168,18 @@ def check_unquote(rec, rng):
     rec.case(('unq', q))
 
 
+ESC_ALPHABET = ['%', '%', '%', '2', '5', '0', 'C', 'c', 'E', 'f', 'g', 'a', '/', '-', '~', '=', '&', '+', ',']
+
+
+def escaped_looking_string(rng):
+    """Only allowed characters, '%' and hex digits: the domain of the 'already escaped?' heuristic
+    (first escape valid / later escape malformed, sign characters after '%', trailing '%', ...)."""
+    return ''.join(rng.choice(ESC_ALPHABET) for _ in range(rng.randint(1, 14)))
+
+
 def random_string(rng):
+    if rng.random() < 0.25:
+        return escaped_looking_string(rng)
     r = rng.random()
     if r < 0.35:
         n = rng.randint(5, 40)
